@@ -2,7 +2,9 @@ package main
 
 import (
 	"fmt"
+	"os"
 	"strings"
+	"time"
 )
 
 // ---------- step constructors ----------
@@ -188,7 +190,7 @@ type nodeSuite struct {
 	id    int
 }
 
-func (s *nodeSuite) run(label string, steps []nStep, mon func(r *nodeRig, i int, st nStep, o nObs, before map[chidTok]string)) {
+func (s *nodeSuite) run(label string, steps []nStep, mon func(r *nodeRig, i int, st nStep, o nObs, before, after map[chidTok]chanSnap)) {
 	s.id++
 	var names []string
 	for _, st := range steps {
@@ -199,7 +201,11 @@ func (s *nodeSuite) run(label string, steps []nStep, mon func(r *nodeRig, i int,
 	if onlyCase != 0 && onlyCase != s.id {
 		return
 	}
+	t0 := time.Now()
 	c := runNodeCase(s.res, s.id, full, steps, mon)
+	if d := time.Since(t0); d > 2*time.Second {
+		fmt.Fprintf(os.Stderr, "slow case %d (%.1fs): %s\n", s.id, d.Seconds(), full)
+	}
 	s.cases = append(s.cases, c)
 	for _, st := range c.steps {
 		s.res.hist("input:" + st.Kind)
@@ -447,8 +453,418 @@ func genWalk(r *rng) []nStep {
 		default:
 			st = sRegister([]string{"T1", "T2"}[r.intn(2)])
 		}
+		// contract of the transport (C16): requests arrive with the remote peer as initiator and self as
+		// responder, responses with self as initiator and the remote peer as responder
+		if st.Kind == "trequest" && (st.K.Resp != 1 || st.K.Init == 1) {
+			st.K = chidTok{2 + r.intn(3), 1, st.K.Tid}
+		}
+		if st.Kind == "tresponse" && (st.K.Init != 1 || st.K.Resp == 1) {
+			st.K = chidTok{1, 2 + r.intn(3), st.K.Tid}
+		}
 		randOracle(r, &st)
 		steps = append(steps, st)
 	}
 	return steps
+}
+
+// ---------- nodevalidate (C04): incoming new/restart requests and validation updates x validator outcomes ----------
+
+func valGrid(progress uint64) []valSpec {
+	var out []valSpec
+	for _, e := range []bool{false, true} {
+		for _, a := range []bool{true, false} {
+			for _, hr := range []int{0, 1, 2} {
+				for _, f := range []bool{false, true} {
+					for _, l := range []uint64{0, progress / 2, progress, progress + 10} {
+						for _, fin := range []bool{false, true} {
+							v := valSpec{Err: e, Accepted: a, Force: f, Limit: l, Fin: fin}
+							if hr == 1 {
+								v.HasRes, v.ResType, v.ResNode = true, "R1", 4
+							}
+							if hr == 2 {
+								v.HasRes, v.ResType, v.ResNode = true, "R1", 0
+							}
+							out = append(out, v)
+						}
+					}
+				}
+			}
+		}
+	}
+	return out
+}
+
+func runNodeValidate(dir string, seed uint64, tier string) {
+	s := &nodeSuite{name: "nodevalidate", res: newResult("nodevalidate", seed, tier)}
+	stride := 5
+	if tier == "thorough" {
+		stride = 1
+	}
+	grid := valGrid(10)
+	n := 0
+	for _, restart := range []bool{false, true} {
+		for _, pull := range []bool{false, true} {
+			for _, transportPath := range []bool{false, true} {
+				for gi, v := range grid {
+					n++
+					if (gi+n)%stride != 0 {
+						continue
+					}
+					steps := []nStep{sRegister("T1")}
+					k := chidTok{2, 1, 7}
+					m := newReq(7, pull)
+					if restart {
+						// an existing channel with 10 bytes of progress in its limited direction
+						steps = append(steps, sMReq(2, newReq(7, pull), accept), sK("tinitiated", k))
+						if pull {
+							steps = append(steps, sData(0, k, 10, 1, true))
+						} else {
+							steps = append(steps, sData(2, k, 10, 1, true))
+						}
+						m = restartReq(7, pull)
+					}
+					if transportPath {
+						steps = append(steps, sTReq(k, m, v))
+					} else {
+						steps = append(steps, sMReq(2, m, v))
+					}
+					// one more step to see that the node is still alive and what state it is in
+					if pull {
+						steps = append(steps, sData(0, k, 3, 2, true))
+					} else {
+						steps = append(steps, sData(2, k, 3, 2, true))
+					}
+					s.run(fmt.Sprintf("validate restart=%v pull=%v transport=%v", restart, pull, transportPath), steps, nil)
+				}
+				// malformed / unregistered requests
+				for _, reg := range []bool{true, false} {
+					for _, vnode := range []int{3, 0} {
+						for _, sel := range []int{2, 0} {
+							for _, v := range []valSpec{accept, {Accepted: false}, {Accepted: true, Err: true}} {
+								if reg && vnode == 3 && sel == 2 {
+									continue
+								}
+								steps := []nStep{}
+								if reg {
+									steps = append(steps, sRegister("T1"))
+								} else {
+									steps = append(steps, sRegister("T2"))
+								}
+								k := chidTok{2, 1, 7}
+								m := newReq(7, pull)
+								if restart {
+									steps = append(steps, sRegister("T1"), sMReq(2, newReq(7, pull), accept), sK("tinitiated", k))
+									if !reg {
+										steps = append(steps, sCrash(false)) // the registry is empty after the restart
+									}
+									m = restartReq(7, pull)
+								}
+								m.VNode, m.Selector = vnode, sel
+								if transportPath {
+									steps = append(steps, sTReq(k, m, v))
+								} else {
+									steps = append(steps, sMReq(2, m, v))
+								}
+								steps = append(steps, sK("tdisconnected", k))
+								s.run(fmt.Sprintf("malformed restart=%v pull=%v transport=%v registered=%v", restart, pull, transportPath, reg), steps, nil)
+							}
+						}
+					}
+				}
+			}
+		}
+	}
+	// UpdateValidationStatus in each responder situation
+	type sit struct {
+		name  string
+		steps []nStep
+		k     chidTok
+	}
+	k := chidTok{2, 1, 7}
+	for _, pull := range []bool{false, true} {
+		kd := 2
+		if pull {
+			kd = 0
+		}
+		sits := []sit{
+			{"queued", []nStep{sMReq(2, newReq(7, pull), accept)}, k},
+			{"ongoing", []nStep{sMReq(2, newReq(7, pull), accept), sK("tinitiated", k), sData(kd, k, 10, 1, true)}, k},
+			{"limit-paused", []nStep{sMReq(2, newReq(7, pull), valSpec{Accepted: true, Limit: 10}), sK("tinitiated", k), sData(kd, k, 10, 1, true)}, k},
+			{"force-paused", []nStep{sMReq(2, newReq(7, pull), valSpec{Accepted: true, Force: true}), sK("tinitiated", k)}, k},
+			{"finalizing", []nStep{sMReq(2, newReq(7, pull), valSpec{Accepted: true, Fin: true}), sK("tinitiated", k), sData(kd, k, 10, 1, true), sCompleted(k, false)}, k},
+			{"completed", []nStep{sMReq(2, newReq(7, pull), accept), sK("tinitiated", k), sCompleted(k, false)}, k},
+			{"unknown", nil, chidTok{2, 1, 99}},
+			{"after-restart-unregistered", []nStep{sMReq(2, newReq(7, pull), accept), sK("tinitiated", k), sData(kd, k, 10, 1, true), sCrash(false)}, k},
+			{"initiator-side", []nStep{sOpen(0, 2)}, chidTok{1, 2, 1001}},
+		}
+		for _, st := range sits {
+			for gi, v := range grid {
+				if v.Err {
+					continue // UpdateValidationStatus takes a result only
+				}
+				if (gi+len(st.name))%stride != 0 {
+					continue
+				}
+				for _, fails := range [][]bool{nil, {false}} {
+					if fails != nil && gi%4 != 0 {
+						continue
+					}
+					steps := append([]nStep{sRegister("T1")}, st.steps...)
+					u := sUpdate(st.k, v)
+					u.Sendf = fails
+					steps = append(steps, u, sData(kd, st.k, 5, 2, true))
+					s.run(fmt.Sprintf("update pull=%v situation=%s sendfails=%v", pull, st.name, fails != nil), steps, nil)
+				}
+			}
+		}
+	}
+	s.finish(dir, fmt.Sprintf("enumerated: {new, restart} x {push, pull} x {network, transport path} x validator outcome grid (error x accepted x voucher result {none, typed, typed-with-nil-node} x ForcePause x DataLimit {0, below, =, above progress} x RequiresFinalization = 192, stride %d) ; unregistered type / missing voucher / missing selector x the same; UpdateValidationStatus in 9 situations (queued, ongoing, limit-paused, force-paused, finalizing, completed, unknown channel, after restart with nothing registered, initiator side) x the grid; every case ends with one more input to observe that the node is alive", stride), tier == "thorough")
+}
+
+// ---------- noderestart (C10, C05): restart paths in every role, status, with progress, second vouchers, crashes ----------
+
+func runNodeRestart(dir string, seed uint64, tier string) {
+	s := &nodeSuite{name: "noderestart", res: newResult("noderestart", seed, tier)}
+	for _, role := range allRoles {
+		k := roleChid(role, 1)
+		other := 2
+		for _, status := range statusesOf(role) {
+			base := recipe(role, status, 1)
+			if base == nil || status == "Completed" || status == "Failed" || status == "Cancelled" {
+				continue
+			}
+			for _, extra := range []string{"none", "voucher", "progress"} {
+				if tier != "thorough" && extra != "none" && !(status == "Ongoing" || status == "Queued" || status == "Requested") {
+					continue
+				}
+				for _, crash := range []string{"no", "rereg", "noreg"} {
+					if tier != "thorough" && crash == "noreg" && extra != "none" {
+						continue
+					}
+					pre := append([]nStep{sRegister("T1")}, base...)
+					switch extra {
+					case "voucher":
+						if roleInitiator(role) {
+							pre = append(pre, sVoucher(k, 5))
+						} else {
+							pre = append(pre, sMReq(other, msgSpec{IsReq: true, Type: mtVoucher, Tid: k.Tid, VType: "T1", VNode: 5}))
+						}
+					case "progress":
+						kd := 2
+						if rolePull(role) != roleInitiator(role) {
+							kd = 0
+						}
+						pre = append(pre, sData(kd, k, 10, 1, true), sData(kd, k, 20, 2, true))
+						if kd == 0 {
+							pre = append(pre, sData(1, k, 10, 1, true))
+						}
+					}
+					switch crash {
+					case "rereg":
+						pre = append(pre, sCrash(true))
+					case "noreg":
+						pre = append(pre, sCrash(false))
+					}
+					var tries []nStep
+					if roleInitiator(role) {
+						tries = []nStep{sK("restart", k), sRestartExisting(other, k), sRestartExisting(4, k),
+							sMResp(other, respOf(mtRestart, k.Tid, true, false)), sMResp(other, respOf(mtRestart, k.Tid, false, false)),
+							sTResp(k, respOf(mtRestart, k.Tid, true, true))}
+						f := sK("restart", k)
+						f.Sendf, f.Trf = []bool{false}, []bool{false}
+						tries = append(tries, f)
+					} else {
+						pull := rolePull(role)
+						valid := restartReq(k.Tid, pull)
+						last := valid
+						last.VNode = 5 // the most recent voucher instead of the original one
+						mut := func(f func(m *msgSpec)) msgSpec { m := valid; f(&m); return m }
+						tries = []nStep{
+							{Kind: "restart", K: k, Vals: []valSpec{accept}},
+							{Kind: "restart", K: k, Vals: []valSpec{{Accepted: false}}},
+							{Kind: "restart", K: k, Vals: []valSpec{{Accepted: true, Err: true}}},
+							sMReq(other, valid, accept), sTReq(k, valid, accept),
+							sMReq(other, valid, valSpec{Accepted: false, HasRes: true, ResType: "R1", ResNode: 4}),
+							sMReq(other, valid, valSpec{Accepted: true, Err: true}),
+							sMReq(other, valid, valSpec{Accepted: true, Force: true}),
+							sMReq(other, valid, valSpec{Accepted: true, Limit: 10, Fin: true}),
+							sMReq(other, last, accept),
+							sMReq(other, mut(func(m *msgSpec) { m.BaseCid = 2 }), accept),
+							sMReq(other, mut(func(m *msgSpec) { m.VType = "T2" }), accept),
+							sMReq(other, mut(func(m *msgSpec) { m.VNode = 9 }), accept),
+							sMReq(other, mut(func(m *msgSpec) { m.VNode = 0 }), accept),
+							sMReq(other, mut(func(m *msgSpec) { m.Pull = !m.Pull }), accept),
+							sMReq(4, valid, accept),
+							sRestartExisting(other, k),
+						}
+					}
+					for ti, t := range tries {
+						if tier != "thorough" && crash != "no" && ti%2 == 1 {
+							continue
+						}
+						steps := append(append([]nStep(nil), pre...), t)
+						// a follow-up input shows whether the transfer carries on
+						steps = append(steps, sK("tdisconnected", k))
+						s.run(fmt.Sprintf("restart role=%s status=%s extra=%s crash=%s", role, status, extra, crash), steps, nil)
+					}
+				}
+			}
+		}
+	}
+	s.finish(dir, "enumerated: 4 roles x every non-terminal status reachable by a real history x {no extra, a second voucher, data progress} x {same process, process restart with / without re-registering the validator} x every restart path (API restart, restart-existing from counterparty and stranger, restart responses accepted / rejected, restart requests valid / rejected / validator error / forced pause / limit / carrying the latest instead of the original voucher / each single-field mutation / from a stranger); quick tier thins the combinations", tier == "thorough")
+}
+
+// ---------- nodepeers (C05): who may act on which channel ----------
+
+func runNodePeers(dir string, seed uint64, tier string) {
+	s := &nodeSuite{name: "nodepeers", res: newResult("nodepeers", seed, tier)}
+	// three live channels with different counterparties and roles, and colliding transfer ids across peers
+	setup := []nStep{sRegister("T1"),
+		sOpen(0, 2), sMResp(2, respOf(mtNew, 1001, true, false)), // created push with peer 2: (1,2,1001)
+		sMReq(3, newReq(1001, true), accept),                     // received pull from peer 3 with the SAME transfer id: (3,1,1001)
+		sOpen(1, 3), sMResp(3, respOf(mtNew, 1002, true, false)), // created pull with peer 3: (1,3,1002)
+		sMReq(2, newReq(7, false), accept), // received push from peer 2: (2,1,7)
+	}
+	for _, sender := range []int{2, 3, 4, 1} {
+		for _, tid := range []uint64{1001, 1002, 7, 55} {
+			var msgs []nStep
+			reqs := []msgSpec{newReq(tid, false), newReq(tid, true), restartReq(tid, false), restartReq(tid, true), reqOf(mtCancel, tid), reqOf(mtUpdate, tid),
+				{IsReq: true, Type: mtUpdate, Tid: tid, Pause: true}, {IsReq: true, Type: mtVoucher, Tid: tid, VType: "T1", VNode: 5}}
+			resps := []msgSpec{respOf(mtNew, tid, true, false), respOf(mtNew, tid, false, false), respOf(mtRestart, tid, true, false), respOf(mtCancel, tid, false, false),
+				respOf(mtUpdate, tid, false, false), respOf(mtUpdate, tid, false, true), respOf(mtComplete, tid, true, false),
+				{Type: mtVoucherResult, Tid: tid, Accepted: true, VType: "R1", VNode: 4}, {Type: mtVoucherResult, Tid: tid, Accepted: false, VType: "R1", VNode: 4}}
+			for _, m := range reqs {
+				msgs = append(msgs, sMReq(sender, m, accept))
+			}
+			for _, m := range resps {
+				msgs = append(msgs, sMResp(sender, m))
+			}
+			for _, k := range []chidTok{{1, 2, 1001}, {3, 1, 1001}, {1, 3, 1002}, {2, 1, 7}, {1, 2, 55}} {
+				if k.Tid == tid {
+					msgs = append(msgs, sRestartExisting(sender, k))
+				}
+			}
+			for _, m := range msgs {
+				steps := append(append([]nStep(nil), setup...), m)
+				s.run(fmt.Sprintf("peers sender=%d tid=%d", sender, tid), steps, nil)
+			}
+		}
+	}
+	// local role checks on every channel
+	for _, k := range []chidTok{{1, 2, 1001}, {3, 1, 1001}, {1, 3, 1002}, {2, 1, 7}, {2, 1, 99}} {
+		for _, st := range []nStep{sVoucher(k, 5), sResult(k, 6), sUpdate(k, accept), sUpdate(k, valSpec{Accepted: false})} {
+			s.run("local-role", append(append([]nStep(nil), setup...), st), nil)
+		}
+	}
+	s.finish(dir, "enumerated: a node with four live channels (both roles, both directions, transfer ids colliding across peers) x sender {each counterparty, stranger, self} x transfer id {each existing id, fresh} x every request kind (8), response kind (9) and restart-existing request; plus SendVoucher / SendVoucherResult / UpdateValidationStatus on every channel and an unknown id", true)
+}
+
+// ---------- nodeapi (C08, C09, C11, C19): API calls in every role and status, with send failures ----------
+
+func runNodeAPI(dir string, seed uint64, tier string) {
+	s := &nodeSuite{name: "nodeapi", res: newResult("nodeapi", seed, tier)}
+	for _, role := range allRoles {
+		k := roleChid(role, 1)
+		other := 2
+		for _, status := range statusesOf(role) {
+			base := recipe(role, status, 1)
+			if base == nil {
+				continue
+			}
+			pre := append([]nStep{sRegister("T1")}, base...)
+			fail1 := func(st nStep) nStep { st.Sendf = []bool{false}; return st }
+			trf1 := func(st nStep) nStep { st.Trf = []bool{false}; return st }
+			var upd msgSpec
+			if roleInitiator(role) {
+				upd = respOf(mtUpdate, k.Tid, false, false)
+			} else {
+				upd = reqOf(mtUpdate, k.Tid)
+			}
+			counterResume := func() nStep {
+				if roleInitiator(role) {
+					return sMResp(other, upd)
+				}
+				return sMReq(other, upd)
+			}
+			counterPause := func() nStep {
+				m := upd
+				m.Pause = true
+				if roleInitiator(role) {
+					return sMResp(other, m)
+				}
+				return sMReq(other, m)
+			}
+			seqs := [][]nStep{
+				{sK("close", k)}, {fail1(sK("close", k))}, {trf1(sK("close", k))}, {sK("closeerr", k)}, {fail1(sK("closeerr", k))},
+				{sK("close", k), sK("close", k)}, {sK("closeerr", k), sK("close", k)},
+				{sK("pause", k)}, {fail1(sK("pause", k))}, {trf1(sK("pause", k))}, {sK("resume", k)}, {sK("pause", k), sK("resume", k)},
+				{sK("pause", k), counterResume()}, {sK("pause", k), counterPause(), counterResume()}, {counterPause(), sK("pause", k), sK("resume", k)},
+				{counterPause(), counterResume()}, {sK("pause", k), sK("pause", k), sK("resume", k), sK("resume", k)},
+				{sVoucher(k, 5)}, {fail1(sVoucher(k, 5))}, {sVoucher(k, 5), sVoucher(k, 6)}, {sResult(k, 6)}, {fail1(sResult(k, 6))}, {sResult(k, 6), sResult(k, 8)},
+				{sK("tcancelled", k), sK("close", k)}, {sCompleted(k, true)}, {sCompleted(k, true), sCompleted(k, true)}, {sCompleted(k, false), sCompleted(k, false)},
+			}
+			for _, q := range seqs {
+				steps := append(append([]nStep(nil), pre...), q...)
+				steps = append(steps, sK("tdisconnected", k))
+				s.run(fmt.Sprintf("api role=%s status=%s", role, status), steps, nil)
+			}
+		}
+	}
+	// data limits: block size sequences against limit schedules with validation-update rounds and restarts
+	k := chidTok{2, 1, 7}
+	sizes := [][]uint64{{5, 5, 5, 5}, {3, 7, 1, 9}, {10, 10}, {1, 2, 3, 5}}
+	for _, pull := range []bool{false, true} {
+		kd := 2
+		if pull {
+			kd = 0
+		}
+		for _, sz := range sizes {
+			var sums []uint64
+			var t uint64
+			for _, x := range sz {
+				t += x
+				sums = append(sums, t)
+			}
+			limits := map[uint64]bool{0: true}
+			for _, x := range sums {
+				limits[x], limits[x+1] = true, true
+				if x > 0 {
+					limits[x-1] = true
+				}
+			}
+			for l := range limits {
+				for _, crashAt := range []int{-1, 0, 1} {
+					if tier != "thorough" && crashAt >= 0 && l%2 == 1 {
+						continue
+					}
+					steps := []nStep{sRegister("T1"), sMReq(2, newReq(7, pull), valSpec{Accepted: true, Limit: l}), sK("tinitiated", k)}
+					var total uint64
+					raised := false
+					for i, x := range sz {
+						steps = append(steps, sData(kd, k, x, int64(i+1), true))
+						if pull {
+							steps = append(steps, sData(1, k, x, int64(i+1), true))
+						}
+						total += x
+						if i == crashAt {
+							steps = append(steps, sCrash(true))
+						}
+						if l != 0 && total >= l && !raised {
+							raised = true
+							// re-validation rounds at the boundary values of the new limit
+							for _, nl := range []uint64{total - 1, total, total + 1, 0} {
+								steps = append(steps, sUpdate(k, valSpec{Accepted: true, Limit: nl}))
+								if nl == 0 || nl > total {
+									break
+								}
+							}
+						}
+					}
+					steps = append(steps, sCompleted(k, false))
+					s.run(fmt.Sprintf("limits pull=%v sizes=%v limit=%d crashAt=%d", pull, sz, l, crashAt), steps, nil)
+				}
+			}
+		}
+	}
+	s.finish(dir, "enumerated: 4 roles x every status reachable by a real history x 27 API sequences (close / close-with-error with and without send and transport failures, double close, pause / resume locally and by the counterparty in every order, vouchers and results with failing sends, failed completion); data limits: 4 block-size sequences x initial limit in {0, every prefix sum -1/0/+1} x {push, pull} x restart point, with validation-update rounds at new limit = progress-1, progress, progress+1, 0", true)
 }
